@@ -96,6 +96,14 @@ class C09(Prop):
                                             [("pipe", [st + [["hot", "0"]]])],
                                             prompt_script(rng, n, gaps, term),
                                             {"kind": "prompt", "w": w, "gaps": list(gaps)}))
+                            if len(out) % 4 == 0:
+                                # the same with a second subscription of a clone of the SAME pipeline value alive
+                                # beside the first: each must be rate-limited as if alone
+                                evs = prompt_script(rng, n, gaps, term)
+                                out.append(Case("time", "local" if len(out) % 3 else "threads",
+                                                [("twosubs", ["1"]), ("pipe", [st + [["hot", "0"]]])],
+                                                evs[:2] + [["sub2"], ["run"]] + evs[2:],
+                                                {"kind": "prompt-twosubs", "w": w, "gaps": list(gaps)}))
         # the degenerate window 0 (nothing is throttled / debounced away, but every item still goes through its
         # own scheduler task: the trailing edge delivers from the task)
         for st in (["debounce", "0"], ["throttle", "0", "l"], ["throttle", "0", "t"], ["throttle", "0", "a"]):
@@ -139,7 +147,30 @@ class C09(Prop):
             return [C09._zero_window(x) for x in node]
         return node
 
+    def compare_from(self, case):
+        # two subscriptions of one pipeline value have no chain model: only the oracle decides
+        return len(case.events) if case.field("twosubs") else 0
+
     def oracle(self, case, lines, model_lines=None):
+        if not case.field("twosubs"):
+            return self._oracle1(case, lines)
+        # `o=… o2=… live=…`: every clause must hold for EACH of the two subscriptions by itself
+        for which in (0, 1):
+            view = {}
+            for k, b in lines.items():
+                if b is not None and b.startswith("o="):
+                    head, sep, rest = b.partition(" live=")
+                    a, _, b2 = head.partition(" o2=")
+                    view[k] = (a if which == 0 else "o=" + b2) + sep + rest
+                else:
+                    view[k] = b
+            f = self._oracle1(case, view)
+            if f:
+                f["detail"] = f"subscription {which + 1} of 2: " + f["detail"]
+                return f
+        return None
+
+    def _oracle1(self, case, lines):
         pipe = case.field("pipe")[0]
         single = pipe[0] in OPS + ["sample"] and (pipe[-1] == ["hot", "0"] or pipe[0] == "sample")
         if not single:
